@@ -126,30 +126,37 @@ func Stackify(script []byte) ([][]byte, error) {
 	return stack, nil
 }
 
-// TODO need more test vectors for this
+// StripOpCode removes every stand-alone occurrence of the opcode op from the script. Data pushes
+// are copied byte for byte exactly as they appear in the script (including a non-minimal push
+// opcode), so bytes equal to op inside pushed data are never touched. Returns an error if the
+// script ends in the middle of a push.
 func StripOpCode(script []byte, op byte) ([]byte, error) {
-	chunks, err := Decompile(script)
-	if err != nil {
-		return nil, err
-	}
+	stripped := make([]byte, 0, len(script))
 
-	recompiled := new(bytes.Buffer)
-	for _, chunk := range chunks {
-		switch chunk.(type) {
-		case byte:
-			b := chunk.(byte)
-			if b != op {
-				recompiled.WriteByte(b)
+	r := bytes.NewReader(script)
+
+	for {
+		start := len(script) - r.Len()
+
+		nextByte, err := r.ReadByte()
+		if err == io.EOF {
+			break
+		} else if err != nil {
+			return nil, err
+		}
+
+		if nextByte > 0 && nextByte <= constants.OP_PUSHDATA4 {
+			r.Seek(-1, io.SeekCurrent) // backtrack to include nextByte
+			if _, err := ReadData(r); err != nil {
+				return nil, err
 			}
-		case []byte:
-			push := PushData(chunk.([]byte))
-			recompiled.Write(push)
+
+			end := len(script) - r.Len()
+			stripped = append(stripped, script[start:end]...)
+		} else if nextByte != op {
+			stripped = append(stripped, nextByte)
 		}
 	}
 
-	if recompiled.Len() == 0 {
-		return []byte{}, nil
-	}
-
-	return recompiled.Bytes(), nil
+	return stripped, nil
 }
